@@ -6,6 +6,7 @@ Require Import Rules SymRules2.
 Require Import Board Move GameOver Tps Symmetry CanonFacts Refine Preserve5 Canon1 Canon2 Canon2b Canon3 Canon4 Canon5 Canon9 Canon10 Canon12.
 Require Import SymCode1.
 Require Import Generated.Consts.
+Require TpsCfg SymmetryCfg.
 Close Scope Z_scope. Close Scope N_scope.
 
 (* preferMove, the comparison Canonical minimises over the stabiliser of the current position, is a strict total
@@ -127,3 +128,13 @@ Print Assumptions C15_example_class_invariant.
 Theorem C15_example_idempotent : ex_cs <> ex_ms /\ canonical gen_basis 5 ex_cs = Ok ex_cs.
 Proof. exact ex_idempotent. Qed.
 Print Assumptions C15_example_idempotent.
+
+(* CONFIGURATIONS.  symmetry.Canonical takes a board SIZE, not a position: it replays from tak.New(tak.Config{Size: size}) - default piece
+   counts, BlackWinsTies false - whatever configuration the game was played under.  The model's start position is exactly FromSquares / New
+   at that zero configuration (TpsCfg.from_squares_cfg: FromSquares under an arbitrary tak.Config), so - unlike symmetry.Symmetries, which
+   passes p.Config() (the C14_cfg theorems) - Canonical has no configuration to carry over and the theorems above cover it as it is.  A game played
+   under a custom configuration is canonicalised iff it is a legal game under the default one (the custom-reduced, custom-enlarged, custom-capstones families of the check). *)
+Theorem C15_start_is_zero_config : forall basis sz,
+  Symmetry.new_pos basis sz = TpsCfg.from_squares_cfg basis sz 0%N 0%N false (repeat (repeat nil (N.to_nat sz)) (N.to_nat sz)) 0%Z.
+Proof. exact SymmetryCfg.new_pos_zero. Qed.
+Print Assumptions C15_start_is_zero_config.
